@@ -44,6 +44,14 @@ class MetaRunner(object):
             runner = self._runners[flavour]
         except KeyError:
             if self.running.is_set():
+                if any(flavour == runner.flavour for runner in self.runner_types):
+                    # the runners are already closed while we are still shutting down
+                    self._logger.warning(
+                        "discarding payloads %s (%s) during shutdown",
+                        payloads,
+                        NameRepr(flavour),
+                    )
+                    return
                 raise RuntimeError(f"unknown runner {NameRepr(flavour)}") from None
             self._runner_queues.setdefault(flavour, []).extend(payloads)
         else:
